@@ -2,7 +2,8 @@
 # usage: tools/seedcheck.sh <seed-id> <agent-worktree> <property> [more-props...]
 # Confirms a seeded change in a FRESH scratch worktree (patch: seed_out/patch.diff, demo: untracked files of
 # the agent's worktree, command: meta.json demo_cmd), stores it under /verif/seeded/<seed-id>/ and runs the
-# quick checks of the listed properties against it in /repo (applied, then reverted).
+# quick checks of the listed properties against the change. The checks run against a scratch worktree that
+# carries the change (VERIF_REPO), so /repo itself is never modified and several seeds can be processed at once.
 set -u
 export GOFLAGS=-mod=mod GOPROXY=off GOSUMDB=off GOTOOLCHAIN=local
 id=$1; wt=$2; prop=$3; shift 3
@@ -11,28 +12,28 @@ out=/verif/seeded/$id
 mkdir -p $out
 cp $wt/seed_out/* $out/ 2>/dev/null
 sc=/tmp/wt/verify_$id
+L=/tmp/seed_$id
+mkdir -p $L
 git -C /repo worktree add -q --detach $sc HEAD || exit 1
-(cd $wt && git status --porcelain | grep '^??' | awk '{print $2}' | grep -v '^seed_out' ) > /tmp/seed_untracked.txt
-for f in $(cat /tmp/seed_untracked.txt); do mkdir -p $sc/$(dirname $f); cp -r $wt/$f $sc/$f; done
+(cd $wt && git status --porcelain | grep '^??' | awk '{print $2}' | grep -v '^seed_out' ) > $L/untracked.txt
+for f in $(cat $L/untracked.txt); do mkdir -p $sc/$(dirname $f); cp -r $wt/$f $sc/$f; done
 demo=$(python3 -c "import json;print(json.load(open('$out/meta.json'))['demo_cmd'])" | sed "s#$wt#$sc#g")
-echo "== demo WITHOUT change (fresh worktree)"; (cd $sc && timeout 300 sh -c "$demo" >/tmp/seed_demo_without.log 2>&1); without=$?; echo "   exit=$without"
+echo "== demo WITHOUT change (fresh worktree)"; (cd $sc && timeout 600 sh -c "$demo" >$L/demo_without.log 2>&1); without=$?; echo "   exit=$without"
 (cd $sc && git apply $out/patch.diff) || { echo "patch does not apply"; exit 1; }
-echo "== demo WITH change"; (cd $sc && timeout 300 sh -c "$demo" >/tmp/seed_demo_with.log 2>&1); with=$?; echo "   exit=$with"
-for f in $(cat /tmp/seed_untracked.txt); do rm -rf $sc/$f; done
-echo "== existing suite with change"; (cd $sc && go test -vet=off -count=1 -timeout 20m ./... 2>&1 | grep -E "^(--- FAIL|FAIL|panic)" | grep -v "BroadcastIP" | grep -v "^FAIL$" | grep -v "v3/transport/tcp	\|v3/transport/tlstcp	\|v3/transport/ws	" > /tmp/seed_suite.log); head -5 /tmp/seed_suite.log
-suite_ok=true; [ -s /tmp/seed_suite.log ] && suite_ok=false
+echo "== demo WITH change"; (cd $sc && timeout 600 sh -c "$demo" >$L/demo_with.log 2>&1); with=$?; echo "   exit=$with"
+for f in $(cat $L/untracked.txt); do rm -rf $sc/$f; done
+echo "== existing suite with change"; (cd $sc && go test -vet=off -count=1 -timeout 20m ./... 2>&1 | grep -E "^(--- FAIL|FAIL|panic)" | grep -v "BroadcastIP" | grep -v "^FAIL$" | grep -v "v3/transport/tcp	\|v3/transport/tlstcp	\|v3/transport/ws	" > $L/suite.log); head -5 $L/suite.log
+suite_ok=true; [ -s $L/suite.log ] && suite_ok=false
 echo "   suite_ok=$suite_ok"
-git -C /repo worktree remove --force $sc
-echo "== checks against the change"
-cd /repo && git apply $out/patch.diff || { echo "patch does not apply to /repo"; exit 1; }
+echo "== checks against the change (scratch worktree $sc)"
 res=""
 for p in $props; do
-  (cd /verif && timeout 1500 ./check $p --tier quick -noevidence > /tmp/seed_check_$p.log 2>&1); rc=$?
-  lab=$(grep -h "label=" /tmp/seed_check_$p.log | sed 's/.*label=\([^ ]*\).*/\1/' | sort -u | head -4 | tr '\n' ' ')
+  (cd /verif && VERIF_REPO=$sc timeout 1500 ./check $p --tier quick -noevidence > $L/check_$p.log 2>&1); rc=$?
+  lab=$(grep -h "label=" $L/check_$p.log | sed 's/.*label=\([^ ]*\).*/\1/' | sort -u | head -4 | tr '\n' ' ')
   echo "   $p exit=$rc $lab"
   res="$res $p:exit=$rc[$lab]"
 done
-cd /repo && git checkout -- . && git status --short | head -3
+git -C /repo worktree remove --force $sc
 python3 - <<PY
 import json
 m=json.load(open('$out/meta.json'))
